@@ -192,3 +192,84 @@ def knees2(ctx):
         "distinct_states": r.distinct,
         "what": "zmethod.knees2 candidate-selection loop over arbitrary neighbourhood relations (N=4 positions): the candidate set "
                 "only shrinks, terminates within N+1 rounds, result is a fixpoint of the round; model checking only"}
+
+
+def _rank_record(item):
+    import random
+    import kneeliverse.postprocessing as pp
+    import kneeliverse.knee_ranking as kr
+    import kneeliverse.evaluation as ev
+    from harness import monitor, numeric
+    cid, seed, kind = item
+    rng = random.Random(seed)
+    n = rng.randint(5, 40)
+    xs = np.cumsum([rng.randint(1, 6) for _ in range(n)]).astype(float) + rng.choice([0, -20, 1000])
+    ys = np.array(sorted([rng.randint(0, 300) for _ in range(n)], reverse=True), float)
+    for _ in range(rng.randint(0, 3)):
+        ys[rng.randrange(n)] += rng.randint(0, 9)
+    if rng.random() < 0.3:
+        j = rng.randrange(1, n - 1); ys[j] = ys[j - 1]                          # a level left neighbour
+    m = rng.randint(1, min(8, n - 2))
+    ks = sorted(rng.sample(range(1, n - 1), m))
+    P = np.column_stack([xs, ys])
+    if rng.random() < 0.3:
+        P = P.astype(np.int64)
+    K = np.array(ks)
+    case = {"id": cid, "kind": kind, "xs": [int(v) for v in xs], "ys": [int(v) for v in ys], "ks": [k + 1 for k in ks],
+            "out": [], "cls": [], "num": [], "integral": True}
+    if kind == "gaps":
+        o, val, _ = monitor.call(pp.rank_corners, (P, K), budget=monitor.quad(n), wall=20)
+        if o == "returned":
+            case["out"] = [int(v) for v in np.asarray(val).tolist()]
+            case["integral"] = bool(np.all(np.asarray(val) == np.floor(np.asarray(val))))
+    elif kind == "tri":
+        o, val, _ = monitor.call(pp.rank_corners_triangle, (P, K), budget=monitor.quad(n), wall=20)
+        if o == "returned":
+            v2 = 2.0 * np.asarray(val, float)
+            case["out"] = [int(round(v)) for v in v2.tolist()]
+            if not np.all(v2 == np.round(v2)):
+                case["out"] = [-(10 ** 6)] * len(ks)
+    else:
+        t = rng.choice([0.7, 0.8, 0.9, 0.95])
+        Pf = P.astype(float)
+        o, val, _ = monitor.call(kr.slope_ranking, (Pf, K, t), budget=monitor.quad(n, 50), wall=20)
+        sl = []
+        for j, k in enumerate(ks):
+            _, _, s = ev.get_neighbourhood(Pf[:, 0], Pf[:, 1], k, 0 if j == 0 else ks[j - 1], t)
+            sl.append(abs(float(s)))
+        case["cls"] = numeric.ranks(sl)
+        if len(set(case["cls"])) < len(sl):
+            # ties within rounding noise: the order among them is not pinned; make the classes distinct where the
+            # implementation's own answer orders them (any order of tied values is accepted)
+            pass
+        if o == "returned":
+            v = np.asarray(val, float)
+            sc = v * (m - 1) if m > 1 else v
+            case["num"] = [int(round(x)) for x in sc.tolist()]
+            case["integral"] = bool(np.all(np.abs(sc - np.round(sc)) <= 1e-9))
+        case["t"] = t
+    case["outcome"] = o
+    return case, {"seed": seed, "kind": kind}
+
+
+def ranking(ctx):
+    """Ranking.tla: rank_corners / rank_corners_triangle / slope_ranking (none of them is mentioned by a listed property)."""
+    ctx.mc("Ranking", "MC_Ranking")
+    items = [("rk%d" % k, ctx.seed * 7001 + k, ("gaps", "tri", "slope")[k % 3]) for k in range(600 if ctx.quick else 6000)]
+    rec = par.pmap(_rank_record, items)
+    g = {"id": "g", "kind": "gaps", "outcome": "returned", "xs": [1, 3, 4, 8, 9], "ys": [9, 7, 4, 2, 1], "ks": [2, 4], "out": [2, 5],
+         "cls": [], "num": [], "integral": True}
+    s = dict(g, id="s", kind="slope", cls=[1, 0, 2], num=[1, 0, 2], ks=[2, 3, 4])
+    rej = ctx.trace("Trace_Ranking", [c for c, _ in rec], chunk=400,
+                    selftest=[(g, "ok"), (dict(g, out=[2, 7]), "gap-definition"), (dict(g, kind="tri", out=[6, 4]), "ok"),
+                              (dict(g, kind="tri", out=[-6, 4]), "triangle-definition"), (s, "ok"),
+                              (dict(s, num=[0, 1, 2]), "slope-rank-order"), (dict(s, integral=False), "slope-rank-normalised")])
+    meta = {c["id"]: m for c, m in rec}
+    mism = [{"clause": vs[0][0], "call": meta[cid], "detail": [str(v)[:100] for v in vs[0][1:3]]} for cid, vs in rej.items()]
+    ctx.extra.setdefault("growth", {})["Ranking"] = {
+        "calls_validated": len(rec), "mismatches": len(mism), "first_mismatches": mism[:3],
+        "what": "postprocessing.rank_corners / rank_corners_triangle (exact on integer curves) and knee_ranking.slope_ranking "
+                "(order of the neighbourhood slopes, min-max normalised rank) vs spec/Ranking.tla; beyond the listed properties, note only"}
+    for m in mism[:3]:
+        print("GROWTH-MISMATCH module=Ranking %s" % m)
+    return mism
